@@ -11,6 +11,8 @@ type simrtStep = simrt.Step
 // Sim runs op under the simulator as the named run of this case and accounts for it.
 func (c *Ctx) Sim(name string, op Op, env *Env) *Outcome {
 	env.Sim = true
+	c.execN++
+	env.MapSeed = mix(c.Seed, 0x6d61700000+uint64(c.execN))
 	if env.Chooser == nil {
 		env.Chooser = c.Chooser(name, -1)
 	}
@@ -44,6 +46,8 @@ func (c *Ctx) Sim(name string, op Op, env *Env) *Outcome {
 // Direct runs op without the scheduler (hooks are pass-throughs) and accounts for it.
 func (c *Ctx) Direct(op Op, env *Env) *Outcome {
 	env.Sim = false
+	c.execN++
+	env.MapSeed = mix(c.Seed, 0x6d61700000+uint64(c.execN))
 	out := Exec(op, env)
 	c.st.Count("direct.runs")
 	c.countFaults(out)
